@@ -84,17 +84,69 @@ pub fn ops() -> BoxedStrategy<Op> {
         3 => gen::cell_spec(0, 29).prop_map(Op::Centre),
         3 => (gen::cell_spec(0, 29), 0u8..3, any::<bool>()).prop_map(|(c, n, cl)| Op::Boundary(c, n, cl)),
         1 => (gen::cell_spec(-1, 29), 0u8..4).prop_map(|(c, d)| Op::Children(c, d)),
-        1 => (gen::cell_spec(-1, 29), 0u8..31).prop_map(|(c, d)| Op::Parent(c, d)),
+        1 => (gen::cell_spec(-1, 29), prop_oneof![4 => 0u8..31, 1 => Just(255u8)]).prop_map(|(c, d)| Op::Parent(c, d)),
         1 => proptest::collection::vec(gen::cell_spec(0, 6), 0..12).prop_map(Op::Compact),
         1 => (proptest::collection::vec(gen::cell_spec(0, 29), 0..4), 0u8..4).prop_map(|(v, d)| Op::Uncompact(v, d)),
         1 => Just(Op::Res0),
         1 => (-2i32..=31).prop_map(Op::Area),
         1 => (-2i32..=31).prop_map(Op::Count),
         1 => any::<u64>().prop_map(Op::Hex),
-        4 => (pt(), 0u8..12).prop_map(|(p, f)| Op::Forward(p, f)),
-        5 => (0u8..12, 0u8..10, 0.0f64..0.9, 0.01f64..0.99).prop_map(|(f, k, rho, off)| Op::Inverse(f, k, rho, off)),
+        4 => (pt(), prop_oneof![9 => 0u8..12, 1 => 12u8..26]).prop_map(|(p, f)| Op::Forward(p, f)),
+        5 => (prop_oneof![9 => 0u8..12, 1 => 12u8..26], 0u8..10, 0.0f64..0.9, 0.01f64..0.99).prop_map(|(f, k, rho, off)| Op::Inverse(f, k, rho, off)),
     ]
     .boxed()
+}
+
+/// Histories whose calls share or nearly share arguments (same cell on another face / quintant,
+/// siblings, parent and child, the same point moved by a hair, the same call repeated): the shapes
+/// that expose a memo keyed on only part of its arguments.
+pub fn related_ops() -> BoxedStrategy<Vec<Op>> {
+    let anchors = (proptest::collection::vec(gen::cell_spec(1, 28), 3..=3), proptest::collection::vec(gen::point_spec([6, 4, 4, 2, 4, 20, 24, 18, 18]), 2..=2));
+    anchors
+        .prop_flat_map(|(cells, points)| {
+            let one = (0usize..3, 0u8..8, 0u8..7, 0usize..2, 0u8..4, any::<u8>(), 0i32..=29).prop_map(move |(ci, tr, kind, pi, ptr, x, res)| {
+                let mut c = cells[ci];
+                c.pos_class = 8; // uniform: pos = raw & mask, so related positions can be expressed on raw
+                match tr {
+                    0 => {}
+                    1 => c.face = (c.face + 1 + x % 11) % 12,
+                    2 => c.quintant = (c.quintant + 1 + x % 4) % 5,
+                    3 => c.raw ^= 1 + (x as u64 % 3),
+                    4 => c.raw ^= (1 + (x as u64 % 3)) << (2 * (x as u32 % 6)),
+                    5 => {
+                        c.res -= 1;
+                        c.raw >>= 2;
+                    }
+                    6 => {
+                        c.res += 1;
+                        c.raw = (c.raw << 2) | (x as u64 & 3);
+                    }
+                    _ => {
+                        c.face = (c.face + 1 + x % 11) % 12;
+                        c.quintant = (c.quintant + x % 5) % 5;
+                    }
+                }
+                c.res = c.res.clamp(0, 29);
+                let mut p = points[pi];
+                match ptr {
+                    0 => {}
+                    1 => p.u2 = (p.u2 + 1e-9 * (1.0 + x as f64)).min(0.999_999),
+                    2 => p.u3 = (p.u3 + 1e-7 * (1.0 + x as f64)).min(0.999_999),
+                    _ => p.u1 = (p.u1 + 1e-6 * (1.0 + x as f64)).min(0.999_999),
+                }
+                match kind {
+                    0 => Op::Centre(c),
+                    1 => Op::Boundary(c, x % 3, x & 8 != 0),
+                    2 => Op::Parent(c, if x % 5 == 0 { 255 } else { x % 6 }),
+                    3 => Op::Children(c, x % 3),
+                    4 => Op::Lookup(p, if x & 1 == 0 { c.res } else { res }),
+                    5 => Op::Forward(p, c.face),
+                    _ => Op::Lookup(p, res),
+                }
+            });
+            proptest::collection::vec(one, 2..40)
+        })
+        .boxed()
 }
 
 /// Result of an op in a comparable, bit-exact form.
@@ -134,7 +186,8 @@ pub fn exec(op: &Op) -> Out {
         }
         Op::Parent(c, d) => {
             let cell = c.cell();
-            match a5::cell_to_parent(codec::encode(&cell), Some((cell.res - *d as i32).max(-1))) {
+            let target = if *d == 255 { None } else { Some((cell.res - *d as i32).max(-1)) };
+            match a5::cell_to_parent(codec::encode(&cell), target) {
                 Ok(id) => Out::Bits(vec![id]),
                 Err(e) => Out::Err(e),
             }
@@ -411,6 +464,17 @@ pub fn run(tier: Tier, seed: u64) -> Report {
     if !rep.absorb("histories", r) {
         return rep;
     }
+    let r = run_pbt(
+        "related-histories",
+        seed,
+        tier.pick(150, 5_000),
+        || (related_ops(), any::<u64>()).prop_map(|(ops, perm_seed)| History { ops, perm_seed }).boxed(),
+        check_history,
+        history_json,
+    );
+    if !rep.absorb("related-histories", r) {
+        return rep;
+    }
     let cold_slots = rep.stats.hist.keys().filter(|k| k.starts_with("slot-cold:")).count();
     rep.extra.insert("memo_slots_exercised_of_270".into(), json!(cold_slots));
     rep.stats.hist.retain(|k, _| !k.starts_with("slot-cold:"));
@@ -446,7 +510,7 @@ pub fn run(tier: Tier, seed: u64) -> Report {
 pub fn replay(section: &str, case: &Value) -> Option<Result<(), String>> {
     let mut st = Stats::default();
     Some(guarded(|| match section {
-        "histories" => check_history(&history_from_json(case).ok_or("bad case")?, &mut st),
+        "histories" | "related-histories" => check_history(&history_from_json(case).ok_or("bad case")?, &mut st),
         "barrier-threads" => {
             let hs: Vec<History> = case.as_array().ok_or("bad case")?.iter().map(history_from_json).collect::<Option<Vec<_>>>().ok_or("bad case")?;
             // a scheduling-dependent failure may need several attempts to show again
